@@ -160,6 +160,20 @@ func ruleC14(c *Check) {
 			}
 			need := Fact{T: mk("sdk.Coins.IsAllGTE", dep, mk(md.Name, parseTerm(P)))}
 			ok := pp.Facts.Has(need)
+			if !ok && setP == nil {
+				// the deposit was checked against a pricing value the path has established to equal the stored one
+				// (a skipped rewrite of unchanged price terms)
+				for _, k := range pp.Facts.Sorted() {
+					fa := pp.Facts[k]
+					if fa.Neg || fa.T.Op != "sdk.Coins.IsAllGTE" || len(fa.T.A) != 2 || !fa.T.A[0].Eq(dep) || fa.T.A[1].Op != md.Name || len(fa.T.A[1].A) == 0 {
+						continue
+					}
+					X := fa.T.A[1].A[len(fa.T.A[1].A)-1]
+					if eq, _ := c.knownEqualToStored(pp.Facts, "0x06", X); eq {
+						ok, need = true, fa
+					}
+				}
+			}
 			if !ok && setP == nil && L.Op == "res" && len(L.A) == 2 && len(L.A[1].A) == 2 {
 				// the stored pricing addressed by the same key the binding was loaded with
 				P2 := fmt.Sprintf("(%s %s %s)", gPricing.Name, L.A[1].A[0], L.A[1].A[1])
